@@ -19,6 +19,17 @@ LABREA.LOGGING.DISABLED / labrea.logging.disabled()) - the full 5 x 3 x 3 cross 
    L  per evaluation of a dataset (observed through an EvaluateRequest handler): served from its
       cache => no log request; otherwise exactly one, level INFO, naming the dataset; logging
       disabled => no `logging` record at all, otherwise one INFO record per request.
+   O  a switch that is present but OFF is off: a history in which every switch of every operation
+      so far is off - given as explicit false values, as option templates resolving to false
+      values, in partially supplied LABREA sections - is indistinguishable (outcome, user code,
+      cache traffic, log requests, records) from the same history with no LABREA section at all.
+
+Two further scenario families, compared with the property's oracle only (Model/Eval.v reads the
+switches with a raw lookup - `flag_at`: no template resolution - and has no log effect):
+  forms   switch values given as option templates ('{K40}', chains, dotted references) resolving
+          to true / false values, and LABREA sections supplied in part (empty (sub)sections);
+  logfx   datasets carrying labrea.logging.LogEffect effects and Logged wrappers at levels below,
+          at and above INFO (DEBUG .. CRITICAL): they are effects (E) and log requests (L) alike.
 """
 import contextlib
 import logging as pylogging
@@ -157,6 +168,201 @@ def make_scenario(rng, i, n_ops, configs):
                 effect_kind=kind, reads_switch=reads_switch)
 
 
+# ----------------------------------------------------------------------------- family `forms`:
+# switch values as option templates / partially supplied LABREA sections (oracle only)
+
+T_BASE = {"cache": 40, "effects": 50, "logging": 60}     # helper option names K40.., read by no graph
+
+
+def switch_form(rng, which, disabled, top, templated):
+    """a value for one switch whose meaning is `disabled` (true / false), literal or as an option
+    template resolving to such a literal: '{K40}' | '{K41}' -> '{K40}' | '{K42.K43}'; the helper
+    keys go into `top` (top-level entries of the same dictionary)"""
+    value = rng.choice([True, True, 1]) if disabled else rng.choice([False, False, 0])
+    if not templated or rng.random() < 0.3:
+        return value
+    b = T_BASE[which]
+    r = rng.random()
+    if r < 0.5:
+        top[b] = value
+        return core.S(("ref", K(b)))
+    if r < 0.75:
+        top[b] = value
+        top[b + 1] = core.S(("ref", K(b)))
+        return core.S(("ref", K(b + 1)))
+    top[b + 2] = {b + 3: value}
+    return core.S(("ref", K(b + 2, b + 3)))
+
+
+def lab_section_forms(cfg, rng, templated, explicit_off):
+    """(LABREA section or None, helper top-level entries) realising `cfg`; `explicit_off`: the
+    probability that a switch that is off is nevertheless PRESENT (false value / empty subsection)"""
+    cm, em, lm = cfg
+    sec, top = {}, {}
+    if cm in ("DISABLED", "DISABLE"):
+        name = DISABLED if cm == "DISABLED" else DISABLE
+        sec[CACHE] = {name: switch_form(rng, "cache", True, top, templated)}
+        if cm == "DISABLED" and rng.random() < 0.2:
+            sec[CACHE][DISABLE] = False                  # DISABLED wins over DISABLE
+    elif rng.random() < explicit_off:
+        r = rng.random()
+        if r < 0.2:
+            sec[CACHE] = {}
+        elif r < 0.55:
+            sec[CACHE] = {DISABLED: switch_form(rng, "cache", False, top, templated)}
+        elif r < 0.85:
+            sec[CACHE] = {DISABLE: switch_form(rng, "cache", False, top, templated)}
+        else:       # the first spelling is present and false: the second one is not consulted
+            sec[CACHE] = {DISABLED: switch_form(rng, "cache", False, top, templated), DISABLE: True}
+    for mode, atom, which in ((em, EFFECTS, "effects"), (lm, LOGGING, "logging")):
+        if mode == "option":
+            sec[atom] = {DISABLED: switch_form(rng, which, True, top, templated)}
+        elif rng.random() < explicit_off:
+            sec[atom] = {} if rng.random() < 0.2 else {DISABLED: switch_form(rng, which, False, top, templated)}
+    if not sec and rng.random() >= explicit_off / 3:
+        return None, top
+    return sec, top
+
+
+def with_lab_forms(o, sec, top, rng):
+    items = list(o.items())
+    if sec is not None:
+        items.insert(rng.randint(0, len(items)), (LAB, sec))
+    for k, v in top.items():
+        items.insert(rng.randint(0, len(items)), (k, v))
+    return dict(items)
+
+
+def has_templ(j):
+    if isinstance(j, core.S):
+        return any(t[0] == "ref" for t in j.toks)
+    if isinstance(j, dict):
+        return any(has_templ(v) for v in j.values())
+    return False
+
+
+def make_forms_scenario(rng, i, n_ops, configs):
+    """as make_scenario, the switches written in other forms.  Three kinds of history: every
+    operation all-off with the off switches PRESENT (clause O applies throughout); all-off first,
+    then the cross product; the cross product throughout.  One scenario in three uses no template
+    (literal false values, empty subsections only): those are compared with the model as well."""
+    templated = i % 3 != 0
+    history = ("off", "off_then_mixed", "mixed")[i % 5 % 3]
+    g = Gen16(rng, effect_kind="reading" if i % 7 == 3 else "plain", with_alloptions=False, with_effects=True,
+              preset_on_ds=0.3 if i % 2 else 0.0, with_map=(i % 4 != 0))
+    base = g.scenario(n_exprs=2, depth=3, n_ops=0)
+    exprs = list(base["exprs"])
+    ds_ids = list(g.env)
+    if not any(e[0] == "dataset" for e in exprs):
+        exprs[0] = ("dataset", rng.choice(ds_ids))
+    # ONE dictionary for the whole history (the switches and their helper keys aside): user code is
+    # deterministic, so every stored entry is what a recomputation yields and the recorded
+    # transparency findings (stale entries across neighbouring dictionaries: D19, D1, ...) cannot
+    # enter the value clause here - these histories are about the switches
+    pool = g.dict_pool()
+    o0 = dict(rng.choice(pool[:1] + pool))
+    ops, extra, cfgs = [], [], []
+    for k in range(n_ops):
+        all_off = history == "off" or (history == "off_then_mixed" and k < n_ops // 2)
+        if all_off:
+            cfg = ("on", "on", "on")
+        elif rng.random() < 0.33:
+            cfg = ("on", rng.choice(EFFECT_MODES), rng.choice(LOG_MODES))
+        else:
+            cfg = next(configs)
+        idx, o = rng.randrange(len(exprs)), o0
+        m = "evaluate" if rng.random() < 0.85 else rng.choice(["validate", "keys", "explain"])
+        cm, em, lm = cfg
+        sec, top = lab_section_forms(cfg, rng, templated, 0.7 if all_off else 0.35)
+        ops.append((m, idx, cm == "ctx", lm == "ctx", with_lab_forms(o, sec, top, rng)))
+        extra.append((tuple(ds_ids) if em == "toggle" else (), tuple(ds_ids) if cm == "nocache" else ()))
+        cfgs.append(cfg)
+    modelled = not any(has_templ(op[4].get(LAB)) for op in ops)
+    return dict(ftable=dict(g.ftable), env=dict(g.env), exprs=exprs, ops=ops, extra=extra, cfgs=cfgs,
+                effect_kind=g.effect_kind, reads_switch=False, family="forms", modelled=modelled)
+
+
+# ----------------------------------------------------------------------------- family `logfx`:
+# log effects and Logged wrappers at every level (oracle only: the model has no log effect)
+
+LOG_LEVELS = [pylogging.DEBUG, pylogging.INFO, 25, pylogging.WARNING, pylogging.WARNING, pylogging.ERROR, pylogging.ERROR, pylogging.CRITICAL]
+FX_LOGGER = "labrea.verif.fx"
+
+
+def fx_msg(tag):
+    return f"verif log effect {tag}"
+
+
+def make_logfx_scenario(rng, i, n_ops, configs):
+    g = Gen16(rng, effect_kind="plain", with_alloptions=False, with_effects=True,
+              preset_on_ds=0.3 if i % 2 else 0.0, with_map=(i % 3 != 0))
+    base = g.scenario(n_exprs=2, depth=3, n_ops=0)
+    exprs = list(base["exprs"])
+    env = {dsid: dict(d) for dsid, d in g.env.items()}
+    ds_ids = list(env)
+    if not any(e[0] == "dataset" for e in exprs):
+        exprs[0] = ("dataset", rng.choice(ds_ids))
+    n = 0
+    for dsid in ds_ids:
+        if rng.random() < 0.75:
+            effs = list(env[dsid].get("effects", []) or [])
+            for _ in range(rng.randint(1, 2)):
+                n += 1
+                effs.insert(rng.randint(0, len(effs)), ("logeffect", rng.choice(LOG_LEVELS), f"{dsid}.{n}"))
+            env[dsid]["effects"] = effs
+    if i % 3 == 1:      # the Logged wrapper (public class) at another level, logging before / after
+        n += 1
+        j = rng.randrange(len(exprs))
+        exprs[j] = ("loggedat", rng.choice(LOG_LEVELS), f"w{n}", rng.random() < 0.5, exprs[j])
+    pool = g.dict_pool()
+    o0 = dict(rng.choice(pool[:1] + pool))       # one dictionary per history (see make_forms_scenario)
+    ops, extra, cfgs = [], [], []
+    for _ in range(n_ops):
+        r = rng.random()
+        if r < 0.35:    # the effects run and logging is disabled: the log effects must stay silent
+            cfg = (rng.choice(CACHE_MODES), "on", rng.choice(["option", "option", "ctx"]))
+        elif r < 0.55:
+            cfg = ("on", rng.choice(EFFECT_MODES), rng.choice(LOG_MODES))
+        else:
+            cfg = next(configs)
+        idx, o = rng.randrange(len(exprs)), o0
+        m = "evaluate" if rng.random() < 0.9 else rng.choice(["validate", "keys", "explain"])
+        cm, em, lm = cfg
+        ops.append((m, idx, cm == "ctx", lm == "ctx", with_lab(o, lab_section(cfg, rng), rng)))
+        extra.append((tuple(ds_ids) if em == "toggle" else (), tuple(ds_ids) if cm == "nocache" else ()))
+        cfgs.append(cfg)
+    return dict(ftable=dict(g.ftable), env=env, exprs=exprs, ops=ops, extra=extra, cfgs=cfgs,
+                effect_kind="plain", reads_switch=False, family="logfx", modelled=False)
+
+
+class Builder16(core.Builder):
+    """core.Builder + labrea.logging.LogEffect (as a dataset effect) and Logged at any level"""
+
+    def build(self, e):
+        if e[0] == "logeffect":
+            from labrea.logging import LogEffect
+            return LogEffect(e[1], FX_LOGGER, fx_msg(e[2]))
+        if e[0] == "loggedat":
+            from labrea.logging import Logged
+            return Logged(self.build(e[4]), e[1], FX_LOGGER, fx_msg(e[2]), log_first=e[3])
+        return super().build(e)
+
+
+def log_levels(scn):
+    """message -> level of every log effect / Logged wrapper of the scenario"""
+    out = {}
+    for t in list(cp.sub_exprs(scn["exprs"])) + list(cp.sub_exprs(scn["env"])):
+        if t and t[0] in ("logeffect", "loggedat"):
+            out[fx_msg(t[2])] = t[1]
+    return out
+
+
+def log_effects(scn):
+    """dataset -> [(message, level)] of its log effects"""
+    return {dsid: [(fx_msg(e[2]), e[1]) for e in d.get("effects", []) or [] if e[0] == "logeffect"]
+            for dsid, d in scn["env"].items()}
+
+
 def config_stream(rng):
     while True:
         cs = list(ALL_CONFIGS)
@@ -239,8 +445,9 @@ def _run_impl16(scn, twin=False):
     from labrea.logging import LogRequest
     from labrea.types import EvaluateRequest
     w = core.World(scn["ftable"])
-    b = core.Builder(w, scn["env"])
+    b = Builder16(w, scn["env"])
     objs = [b.build(e) for e in scn["exprs"]]
+    levels = log_levels(scn)
     for dsid in scn["env"]:
         assert scn["env"][dsid].get("derived") is None
         b.dataset(dsid)
@@ -334,7 +541,7 @@ def _run_impl16(scn, twin=False):
             out.append(dict(line=CANON(r) + "|" + " ".join(calls), raw=raw, calls=calls, reqs=list(state["reqs"]),
                             records=list(state["records"]), instances=list(state["instances"]),
                             cache_changed=sorted(cid for cid in set(before) | set(after) if before.get(cid, {}) != after.get(cid, {})),
-                            msg_of=msg_of))
+                            msg_of=msg_of, levels=levels))
     finally:
         root.removeHandler(cap)
         root.setLevel(old_level)
@@ -353,7 +560,7 @@ def user_calls(calls):
 
 
 def effect_fids(scn):
-    return {dsid: [e[1] for e in d.get("effects", []) or []] for dsid, d in scn["env"].items()}
+    return {dsid: [e[1] for e in d.get("effects", []) or [] if e[0] == "pstep"] for dsid, d in scn["env"].items()}
 
 
 def fresh_reference(scn, op, ex, cache_via):
@@ -406,8 +613,13 @@ def oracle(scn, obs=None, tw=None):
     cnt = dict(value_checks=0, cache_off_ops=0, nocache_ops=0, effect_off_ops=0, log_off_ops=0,
                instances=0, hits=0, misses=0, requests=0, fresh_refs=0, flips_on_warm=0, effect_pairs=0)
     eff = effect_fids(scn)
+    lfx = log_effects(scn)
+    lfx_msgs = {msg for fx in lfx.values() for msg, _ in fx}
+    cnt.update(all_off_ops=0, all_off_ops_with_switches_present=0, log_effect_instances=0, log_effect_requests=0,
+               silenced_above_info=0)
     ds_cids = set(scn["env"])
     warm = False
+    all_off_so_far = True
     for j, (op, ex, cfg, a, t) in enumerate(zip(scn["ops"], scn["extra"], scn["cfgs"], obs, tw)):
         m, i, cc, lc, o = op
         cm, em, lm = cfg
@@ -417,6 +629,22 @@ def oracle(scn, obs=None, tw=None):
         if "crash:" in a["line"].split("|")[0]:
             bad("entering / leaving the switch contexts failed outside the evaluation", line=a["line"][:120])
             continue
+        # ---- O: every switch of every operation so far is off (however the off switches are written):
+        # this IS the all-switches-off history - same outcome, user code, cache traffic, requests, records
+        all_off_so_far = all_off_so_far and tuple(cfg) == ("on", "on", "on") and not ex[0] and not ex[1] and not cc and not lc
+        if all_off_so_far and not scn["reads_switch"]:
+            cnt["all_off_ops"] += 1
+            cnt["all_off_ops_with_switches_present"] += 1 if LAB in o else 0
+
+            def view(x):
+                inv = {msg: d for d, msg in x["msg_of"].items()}
+                return dict(line=x["line"], requests=[(r[0], r[1], inv.get(r[2], r[2])) for r in x["reqs"]],
+                            records=[(lv, inv.get(msg, msg)) for lv, msg in x["records"]], stored=x["cache_changed"])
+            va, vt = view(a), view(t)
+            if va != vt:
+                diff = [k for k in va if va[k] != vt[k]]
+                bad("every switch is off, yet the operation differs from the same operation of the history without switches",
+                    method=m, differs_in=diff, got={k: va[k] for k in diff}, without_switches={k: vt[k] for k in diff})
         # ---- the two ways of disabling effects agree (evaluate and validate), on fresh graphs
         if m in ("evaluate", "validate") and em != "on" and (j % 3 == 0 or m == "validate") and not scn["reads_switch"]:
             ra, rb = effects_pair(scn, op)
@@ -471,6 +699,8 @@ def oracle(scn, obs=None, tw=None):
                     bad("log request issued for a dataset served from its cache", dataset=d)
                 if any(x.startswith(f"c{f}(") for f in eff[d] for x in sl):
                     bad("effect ran for a dataset served from its cache", dataset=d)
+                if any(r[2] == msg for msg, _ in lfx[d] for r in a["reqs"] if inst["start"] < r[3] <= inst["end"]):
+                    bad("log effect ran for a dataset served from its cache", dataset=d)
                 continue
             cnt["misses"] += 1
             reached = (not cached_here) or any(x.startswith(f"ex{d}") for x in sl)
@@ -492,11 +722,25 @@ def oracle(scn, obs=None, tw=None):
                     bad("effect ran although effects are disabled", dataset=d, effect=f)
                 if (not eff_off) and inst["ok"] and n != 1 and scn["effect_kind"] != "failing":
                     bad("effect did not run exactly once for an evaluation not served from the cache", dataset=d, effect=f, ran=n)
+            # log effects (labrea.logging.LogEffect) are effects: as above, observed by their requests
+            for msg, lvl in lfx[d]:
+                rs = [r for r in a["reqs"] if inst["start"] < r[3] <= inst["end"] and r[2] == msg]
+                cnt["log_effect_instances"] += 1
+                cnt["log_effect_requests"] += len(rs)
+                if eff_off and rs:
+                    bad("log effect ran although effects are disabled", dataset=d, effect=msg)
+                if (not eff_off) and inst["ok"] and len(rs) != 1:
+                    bad("log effect did not issue exactly one request for an evaluation not served from the cache", dataset=d, effect=msg, requests=len(rs))
+                if any(r[0] != lvl or r[1] != FX_LOGGER for r in rs):
+                    bad("log effect request does not carry the effect's level / logger", dataset=d, effect=msg, level=lvl, got=[r[:2] for r in rs])
+                if rs and lm != "on" and lvl > pylogging.INFO:
+                    cnt["silenced_above_info"] += 1
             if cached_here and inst["ok"] and f"set{d}" not in sl:
                 bad("value not stored by a caching dataset", dataset=d)
         if em != "on":
             cnt["effect_off_ops"] += 1
             ran = [x for x in a["calls"] for fs in eff.values() for f in fs if x.startswith(f"c{f}(")]
+            ran += [r[2] for r in a["reqs"] if r[2] in lfx_msgs]
             if ran:
                 bad("effect ran although effects are disabled", calls=ran[:4])
         # ---- L: emissions
@@ -507,9 +751,13 @@ def oracle(scn, obs=None, tw=None):
         else:
             if len(a["records"]) != len(a["reqs"]):
                 bad("number of logging records differs from the number of log requests", records=len(a["records"]), requests=len(a["reqs"]))
-            for lv, _ in a["records"]:
-                if lv != pylogging.INFO:
-                    bad("logging record level is not INFO", level=lv)
+            elif sorted((r[0], r[2]) for r in a["reqs"]) != sorted(a["records"]):
+                bad("logging records differ from the log requests (level, message)", records=a["records"][:4], requests=[(r[0], r[2]) for r in a["reqs"]][:4])
+            for lv, msg in a["records"]:
+                # the per-evaluation trace of a dataset is INFO; a log effect / Logged wrapper logs at its own level
+                if lv != a["levels"].get(msg, pylogging.INFO):
+                    bad("logging record level is not INFO" if msg not in a["levels"] else "logging record level is not the level of the log effect",
+                        level=lv, message=msg[:60])
         if any(x.startswith("set") for x in a["calls"]):
             warm = True
     return fails, cnt
@@ -594,7 +842,7 @@ def tag_value_failures(ctx, cands):
 
 
 def slim(scn):
-    return {k: scn[k] for k in ("ftable", "env", "exprs", "ops", "extra", "cfgs", "effect_kind", "reads_switch")}
+    return {k: scn[k] for k in ("ftable", "env", "exprs", "ops", "extra", "cfgs", "effect_kind", "reads_switch", "family", "modelled") if k in scn}
 
 
 def run(ctx):
@@ -603,13 +851,29 @@ def run(ctx):
     n_ops = 14
     configs = config_stream(rng)
     scns = [make_scenario(rng, i, n_ops, configs) for i in range(n)]
+    # the two further families are drawn AFTER the base stream (which stays what it was for a given seed)
+    n_forms, n_logfx = (120, 90) if ctx.quick else (1200, 900)
+    forms = [make_forms_scenario(rng, i, n_ops, configs) for i in range(n_forms)]
+    logfx = [make_logfx_scenario(rng, i, n_ops, configs) for i in range(n_logfx)]
+    scns = scns + forms + logfx
     obs_all = [run_impl16(s) for s in scns]
     tw_all = [run_impl16(s, twin=True) for s in scns]
-    models, mism, stats = correspondence16(ctx, scns, "Cases_C16", obs_all)
+    # model vs implementation: everything the model can express (not: templated switch values, log effects)
+    in_model = [k for k, s in enumerate(scns) if s.get("modelled", True)]
+    models_m, mism, stats = correspondence16(ctx, [scns[k] for k in in_model], "Cases_C16", [obs_all[k] for k in in_model])
+    models = [None] * len(scns)
+    for k, ml in zip(in_model, models_m):
+        models[k] = ml
     violations, cands = [], []
     totals, distinct, seen_cfg = {}, set(), set()
+    by_family = {}
     for s, obs, tw, ml in zip(scns, obs_all, tw_all, models):
         fails, cnt = oracle(s, obs, tw)
+        fam = by_family.setdefault(s.get("family", "base"), dict(scenarios=0, ops=0, modelled_scenarios=0, oracle_failures=0))
+        fam["scenarios"] += 1
+        fam["ops"] += len(s["ops"])
+        fam["modelled_scenarios"] += 1 if ml is not None else 0
+        fam["oracle_failures"] += len(fails)
         for k, v in cnt.items():
             totals[k] = totals.get(k, 0) + v
         for op, cfg in zip(s["ops"], s["cfgs"]):
@@ -621,7 +885,7 @@ def run(ctx):
             v = dict(desc="C16 oracle: " + f["what"], finding=None, detail={k: repr(x)[:300] for k, x in f.items()},
                      op_index=f["op_index"], scenario_repr=cp.dump_scn(slim(s)))
             violations.append(v)
-            if f["what"] == "value":
+            if f["what"] == "value" and ml is not None:
                 cands.append(dict(scn=s, op_index=f["op_index"], violation=v, twin_obs=tw, main_obs=obs, main_model=ml))
     tag_value_failures(ctx, cands)
     tagged = {}
@@ -635,13 +899,21 @@ def run(ctx):
         known.append(dict(id=fid, still_fails=any(x["op_index"] == j and x["what"] == "value" for x in f),
                           what=WITNESSES[fid]["what"] + " - with the cache switched off the second evaluation returns the fresh value, with all switches off the stale one"))
     return {
-        "evaluations": stats["ops"] + totals.get("value_checks", 0) + totals.get("instances", 0) + totals.get("fresh_refs", 0) + totals.get("effect_pairs", 0),
+        "evaluations": stats["ops"] + sum(len(s["ops"]) for s in scns if not s.get("modelled", True)) + totals.get("value_checks", 0) + totals.get("instances", 0) + totals.get("fresh_refs", 0) + totals.get("effect_pairs", 0),
         "distinct_nontrivial": len(distinct),
         "rule": "random dataset graphs (effects, caches, overloads, pre-set/default options, Map, templates, cached wrappers) x histories of "
                 f"{n_ops} operations on one long-lived graph, each operation under its own switch configuration drawn without replacement from the "
                 "5x3x3 cross product (cache on/DISABLED/DISABLE/context/nocache x effects on/option/per-dataset toggle x logging on/option/context), "
                 "80% of the operations revisit three (expression, dictionary) pairs so that switches flip on warm caches; non-trivial = the history "
-                "contains a cache hit and a switched-off-cache evaluation after the first store; distinct by hash of the scenario",
+                "contains a cache hit and a switched-off-cache evaluation after the first store; distinct by hash of the scenario. "
+                f"Two further families after the base stream: forms ({n_forms} histories on one dictionary each): the switches written as option "
+                "templates ('{K40}', a chain of two, a dotted reference) resolving to true / false values and as literal false values, LABREA "
+                "sections supplied in part (empty section / subsections, one spelling false and the other true); 40% of the histories keep every "
+                "switch off throughout with the off switches present, 40% for the first half (clause O: indistinguishable from the history "
+                "without switches), the rest draws the cross product; the third without templates is compared with the model too. "
+                f"logfx ({n_logfx} histories on one dictionary each): datasets carrying 1-2 labrea.logging.LogEffect effects and Logged wrappers at "
+                "DEBUG / INFO / 25 / WARNING / ERROR / CRITICAL, a third of the operations with effects on and logging disabled by option or "
+                "context (nothing may be emitted), the rest from the cross product; oracle only",
         "samples": [dict(exprs=repr(s["exprs"])[:300], configs=[("/".join(c)) for c in s["cfgs"][:4]], observed=[x["line"] for x in obs[:4]])
                     for s, obs in list(zip(scns, obs_all))[:3]],
         "traces_validated_against_impl": stats["ops"],
@@ -649,13 +921,20 @@ def run(ctx):
         "violations": violations,
         "known": known,
         "distribution": dict(stats, oracle=totals, configurations_covered=len(seen_cfg), configurations_total=len(ALL_CONFIGS),
-                             oracle_failures_tagged=tagged, scenarios=len(scns)),
+                             oracle_failures_tagged=tagged, scenarios=len(scns), families=by_family),
         "exhaustive": False,
         "assumptions": ["user code is deterministic; cyclic template references excluded; floats not generated",
                         "value claim: expressions that read a LABREA key or AllOptions are excluded (the switch is part of their value by definition) - the model must still agree on them",
                         "value claim: graphs whose effect callbacks RAISE are excluded (a raising effect fails the evaluation by design, so an evaluation with effects disabled succeeds - and stores its value, which later evaluations with effects on are served; C16_computation_returns_body_value covers successful computations) - the model must still agree on them",
                         "failure comparison is by failing/succeeding (with the cache on the fingerprint is computed first, so another of several causes may surface)",
-                        "with_options/with_default_options derivatives are not generated here (they copy cache and toggle at creation; covered by C08)"],
+                        "with_options/with_default_options derivatives are not generated here (they copy cache and toggle at creation; covered by C08)",
+                        "switch values: the literals True / 1 (on), False / 0 (off) and single-reference option templates resolving to them (what "
+                        "Option evaluation yields); other values (strings, None, templates with surrounding text or missing references) are not "
+                        "generated: the property does not say which of them count as on",
+                        "dotted TOP-LEVEL forms ({'LABREA.CACHE.DISABLED': True}) are not switch settings: confectioner's get_dotted_key splits "
+                        "the key at the dots and finds no 'LABREA' entry (checked on the unchanged tree); not generated",
+                        "families forms (templated part) and logfx are NOT compared with the model: Model/Eval.v `flag_at` reads the switch with a raw "
+                        "lookup (no template resolution: a templated switch is the truthy string there) and has no LogEffect / level-carrying Logged"],
         "trusted_base": ["confectioner functions and CPython json/str/dict are modelled (Model/Base.v, Model/Template.v), validated by this correspondence run",
                          "observation through labrea's own request handlers (EvaluateRequest, LogRequest), recording MemoryCache subclasses and a `logging` handler"],
     }
@@ -670,6 +949,9 @@ def replay(ctx, payload):
     scn = cp.load_scn(text)
     obs = run_impl16(scn)
     f, _ = oracle(scn, obs)
+    if not scn.get("modelled", True):    # templated switch values / log effects: outside the model, the oracle decides
+        return bool(f), dict(oracle_failures=[{k: repr(v)[:300] for k, v in x.items()} for x in f], impl=[x["line"] for x in obs],
+                             model="not modelled (family %s)" % scn.get("family"))
     ml = ctx.coq_eval("Replay_C16", cp.REQ, "", [coq_scenario16(scn)])[0].split(" ## ")
     il = [x["line"] for x in obs]
     return bool(f) or not cp.agrees(il, ml, scn), dict(oracle_failures=[{k: repr(v)[:300] for k, v in x.items()} for x in f],
